@@ -150,6 +150,39 @@ def run_C18(ctx):
     exec_run(ctx, "C18", 2, quick=500, thorough=30000)
 
 
+def run_C17(ctx):
+    ok, out = driver.build_harness_race()
+    if not ok:
+        raise RuntimeError("race build failed: " + out[-2000:])
+    outdir = os.path.join(ctx.workdir, "race")
+    os.makedirs(outdir, exist_ok=True)
+    for f in ("cases.json", "stats.json"):
+        p = os.path.join(outdir, f)
+        if os.path.exists(p):
+            os.remove(p)
+    n = n_cases(ctx, 24, 400)
+    rc, o = driver.sh([driver.VH_RACE, "race", "--n", n, "--seed", str(ctx.seed), "--out", outdir], timeout=3000, env=dict(driver.GOENV, GORACE="halt_on_error=0"))
+    races = o.count("WARNING: DATA RACE")
+    if races:
+        i = o.index("WARNING: DATA RACE")
+        ctx.violation("race", {"kind": "the Go race detector reported %d data race(s) between concurrently running EVM instances" % races,
+                               "vh_args": ["race", "--n", n], "first_report": o[i:i + 4000]})
+    elif rc != 0:
+        ctx.violation("race_died", {"kind": "the race harness died", "rc": rc, "output_tail": o[-3000:]}, found_input=False)
+    if os.path.exists(os.path.join(outdir, "cases.json")):
+        cases = driver.json.load(open(os.path.join(outdir, "cases.json")))
+        ctx.stats["race"] = driver.json.load(open(os.path.join(outdir, "stats.json")))
+        ctx.evaluations += len(cases)
+        for c in cases:
+            ctx.distinct.add("%s/%s/%s/%s" % (c["kind"], c["fork"], c.get("eips"), c["idx"] % 97))
+        for c in cases[:2] + cases[-1:]:
+            ctx.samples.append({"run": "race", "case": c})
+        bad = [c for c in cases if c.get("oracle_fail")]
+        for c in bad[:3]:
+            ctx.violation("race", {"kind": "concurrent / cancelled execution misbehaved", "case": c})
+        ctx.notes.append("race: %d executions under the race detector, %d data races, %d misbehaving" % (len(cases), races, len(bad)))
+
+
 def run_C20(ctx):
     ref_run(ctx, "workscan", ["workscan"], "state reads (counting StateDB) and allocated bytes per journal instruction / Artela precompile call with length fields 2^5..2^16 (2^22 thorough)",
             oracle_prefix="C20")
@@ -380,5 +413,19 @@ PROPS.update({
                 "non-trivial = at least 5 steps resp. non-empty tracer output; distinct = (fork, entry, codes, input, tracer, config)",
         "modelled": ["vm/evm.go event emission (dbg_open/dbg_close, Enter/Exit of the non-recording call kinds)"],
         "assumptions": ["as C01"],
+    },
+})
+
+PROPS.update({
+    "C17": {
+        "run": run_C17,
+        "technique": "Coq theorems (copy-on-write of instruction tables from regenerated table dumps; bookkeeping closed after any run, cancelled ones included) + Go race detector over concurrent workers and cross-goroutine Cancel",
+        "level_text": "PARTIAL: data races and the Go memory model cannot be expressed in an executable Gallina model. Proved: over regenerated dumps, the package-level instruction tables of all forks are unchanged after interpreters with every extra EIP were built; "
+                      "every entry point closes its bookkeeping for every instruction semantics, hence also for a run whose jumps stop after Cancel. Validated: the harness is built with -race; 8 workers run scenarios (13 fork/EIP combinations, Aspects bound, "
+                      "journal instructions) concurrently and compare with sequential results; Cancel is called from another goroutine at random moments on a looping execution with nested calls, which must stop promptly, without panic, with depth and call tree at rest.",
+        "level_note": COMMON_NOTE + "Trusted additionally: the Go race detector (it reports races that occur in the explored schedules only). Not modelled: scheduler, sync.Pool, allocator.",
+        "rule": "n jobs (fork x extra-EIP set x join points x entry point) run sequentially once and then twice by each of 8 concurrent workers; n/2+4 cancel trials with a delay of 0-3 ms; non-trivial = any; distinct = (kind, fork, EIPs, job)",
+        "modelled": ["vm/interpreter.go NewEVMInterpreter copy-on-write (as table dumps)", "vm/evm.go Cancel (as: jumps stop)"],
+        "assumptions": ["schedules not explored by the run may still race"],
     },
 })
